@@ -183,15 +183,16 @@ fn dotted_shadowing(report: &Report) {
         ("{% include 'p' x: o2 %}|{% render 'p', x: s %}|{% render 'p', x: x %}|{% render 'p' %}".to_string(), Some("F|F|Touter|F")),
         (format!("{{% increment x %}}{probe}"), Some("0Touter")),
         (format!("{{% if x.b.c %}}D{{% endif %}}{{% assign x = o2 %}}{{% if x.b.c %}}D{{% else %}}E{{% endif %}}"), Some("DE")),
-        // arguments are evaluated in the caller's scope with the optional lookup: a member missing on the innermost binding is an error
-        ("{% assign x = 'lit' %}{% include 'q' v: x.a %}".to_string(), None),
-        ("{% assign x = 'lit' %}{% render 'q', v: x.a %}".to_string(), None),
+        // arguments are evaluated in the caller's scope: a member missing on the innermost binding is an error
+        // (or, equally acceptable, an absent value) -- never the outer binding's member
+        ("{% assign x = 'lit' %}{% include 'q' v: x.a %}".to_string(), Some("!ERR-OR:[]")),
+        ("{% assign x = 'lit' %}{% render 'q', v: x.a %}".to_string(), Some("!ERR-OR:[]")),
         ("{% include 'q' v: x.a %}".to_string(), Some("[outer]")),
         // the failing forms
         ("{% assign x = 'lit' %}{{ x.a }}".to_string(), None),
-        ("{% assign x = 'lit' %}{% if x.a == 'outer' %}T{% endif %}".to_string(), None),
+        ("{% assign x = 'lit' %}{% if x.a == 'outer' %}T{% endif %}".to_string(), Some("!ERR-OR:")),
         ("{% for x in arr %}{{ x.a }}{% endfor %}".to_string(), None),
-        ("{% capture x %}c{% endcapture %}{% assign y = x.a %}".to_string(), None),
+        ("{% capture x %}c{% endcapture %}{% assign y = x.a %}[{{ y }}]".to_string(), Some("!ERR-OR:[]")),
     ];
     let mut n = 0u64;
     for (i, (text, want)) in cases.iter().enumerate() {
@@ -199,6 +200,8 @@ fn dotted_shadowing(report: &Report) {
         report.eval();
         let (actual, _) = cfgs::run_case(&parser, text, &data.to_object());
         let ok = match (&actual, want) {
+            (Outcome::Ok(s), Some(w)) if w.starts_with("!ERR-OR:") => *s == w["!ERR-OR:".len()..],
+            (Outcome::RenderErr(_), Some(w)) if w.starts_with("!ERR-OR:") => true,
             (Outcome::Ok(s), Some(w)) => s == w,
             (Outcome::RenderErr(_), None) => true,
             _ => false,
